@@ -29,5 +29,5 @@ RESIDUAL = ("floating-point rounding of the indices (measured by the comparison,
 
 
 def families(tier, seed):
-    n = 200 if tier == "quick" else 5000
+    n = 400 if tier == "quick" else 20000
     return [("crystal", seed, n, [])]
